@@ -141,7 +141,11 @@ def run(rep, tier):
                'NOT covered: Async::parse / Display (str prefix matching: outside Verus, Kani did not finish), and that the Rust/C/MoonBit generators act on the answer and call ensure_all_used')
     rep.notes.append('Lemma over the two contracts: after any sequence of is_async calls used_options is exactly the set of deciding directives, so ensure_all_used errs exactly when some non-`all` directive never decided a function.')
     verus.canary(rep)
-    u = build(rep)
+    try:
+        u = build(rep)
+    except rustsrc.LostAnchor as e:
+        verus.unspliceable(rep, 'C17', 'AsyncFilterSet::is_async.first_matching_directive_decides', 'AsyncFilterSet::is_async (crates/core/src/async_.rs)', e)
+        return
     obs = u.run(tier)
     for o in obs:
         rep.add(o)
